@@ -365,6 +365,9 @@ ClassOf(s, op, s2) ==
   LET p == Fld(op, "p")  c == IF "c" \in DOMAIN op THEN op.c ELSE IF "t" \in DOMAIN op THEN op.t ELSE Fld(op, "o") IN
   IF op.op \in {"call", "start_sweeping", "finalize", "drop_arena", "failed_map_root", "failed_new"}
   THEN <<op.op, Fld(op, "kind"), Fld(op, "g"), Fld(op, "cont"), Fld(op, "fault"), ObsPhase(s), ObsPhase(s2),
+         IF op.op = "call" THEN CallSig(s, op.kind, op.b, op.g, op.cont, IF "fault" \in DOMAIN op THEN op.fault ELSE NoFaultRec)
+         ELSE IF op.op \in {"start_sweeping", "finalize"} /\ s.phase # "Sweep"
+              THEN CallSig(s, "finish_marking", 0, "P1", FALSE, NoFaultRec) ELSE <<>>,
          Count(s) - Count(s2) > 0, s.gray # <<>>, s.grayAgain # <<>>, s.rootNT,
          IF op.op = "finalize" THEN <<Col(s2, op.t), op.t # NoObj>> ELSE <<>>,
          Fld(op, "n"), Fld(op, "mode") >>
